@@ -17,11 +17,18 @@ SPEC = Spec(
         Harness(name="graph", module="service", pkg="service/internal/graph",
                 files={"zz_verif_c11_graph_test.go": "c11/graph_test.go"},
                 test="TestVerifC11Graph", driver="drv_c11", n={"quick": 800, "thorough": 10000}),
+        Harness(name="service", module="service", pkg="service",
+                files={"zz_verif_c11_service_test.go": "c11/service_test.go"},
+                test="TestVerifC11Service", driver="drv_c11", n={"quick": 300, "thorough": 4000},
+                mod_append=["require go.opentelemetry.io/collector/internal/sharedcomponent v0.124.0",
+                            "replace go.opentelemetry.io/collector/internal/sharedcomponent => $REPO/internal/sharedcomponent"]),
         Harness(name="extensions", module="service", pkg="service/extensions",
                 files={"zz_verif_c11_ext_test.go": "c11/extensions_test.go"},
                 test="TestVerifC11Extensions", driver="drv_c11", n={"quick": 500, "thorough": 5000}),
     ],
-    rule="extensions: real extensions.New/Start/Shutdown with 1-5 extensions failing Start/Shutdown at random, per-extension events "
+    rule="service: the real service.New/Start/Shutdown with a status-watcher extension (the property's observation point), scripted "
+         "components and a receiver shared across two signals through the real sharedcomponent; non-shared instances compared exactly "
+         "with Life.events, all instances monitored by docPathB, shared instances must end in the same status. extensions: real extensions.New/Start/Shutdown with 1-5 extensions failing Start/Shutdown at random, per-extension events "
          "compared with Life.events; non-trivial = some failure. graph: real graph.Build/StartAll/ShutdownAll with components that report random statuses from Start, while running (one goroutine "
          "per instance) and from Shutdown and that fail Start/Shutdown at random; per-instance events compared with Life.events; "
          "non-trivial = some component reports itself. reporter: random report sequences (0-30 reports, 1-3 instances, all 8 statuses + ReportOKIfStarting) against the real "
